@@ -1,5 +1,6 @@
 import TdVerif.Sexp
 import TdVerif.Model.C17Ctx
+import TdVerif.Model.C17World
 import TdVerif.Drive.C02
 
 namespace TdVerif.Drive
@@ -70,6 +71,14 @@ def binds? : Sexp → Option Binds
 
 def bindsSexp (b : Binds) : Sexp := .list (.atom "binds" :: b.map fun p => .list [keySexp p.1, .atom (toString p.2)])
 
+/-- `(call v name <call>)`, `(enter v)`, `(edits v e…)`, `(exit v)` -/
+def step? : Sexp → Option Step
+  | .list [.atom "call", .atom v, .atom name, c] => do pure (.call (← v.toNat?) name (← call? c))
+  | .list [.atom "enter", .atom v] => do pure (.enter (← v.toNat?))
+  | .list (.atom "edits" :: .atom v :: es) => do pure (.edits (← v.toNat?) (← es.mapM edit?))
+  | .list [.atom "exit", .atom v] => do pure (.exit (← v.toNat?))
+  | _ => none
+
 end C17D
 
 /-- line-protocol handler for C17 -/
@@ -97,6 +106,12 @@ def handleC17 (cmd : String) (args : List Sexp) : Option Sexp :=
       match r with
       | .error e => pure (C02D.errSexp e)
       | .ok r => pure (tagged "ok" [C17D.stSexp r])
+  -- a program on a heap of objects (one `_last_op_queue` per object): answers the originals' metadata afterwards
+  | "c17.world", [.list (.atom "origs" :: os), .list (.atom "steps" :: ss)] => do
+      let os ← os.mapM C17D.st?; let ss ← ss.mapM C17D.step?
+      match runSteps (World.init os) ss with
+      | .error e => pure (C02D.errSexp e)
+      | .ok w => pure (tagged "ok" ((List.range os.length).map fun v => C17D.stSexp (w.stOf v)))
   | "c17.temp", [.atom name, c, .list (.atom "edits" :: es), s] => do
       let c ← C17D.call? c; let s ← C17D.st? s; let es ← es.mapM C17D.edit?
       match withTempBlock name c es s with
